@@ -260,6 +260,10 @@ type Reach struct {
 	Stop func(ssa.Instruction) bool
 	// StopEdge: these CFG edges are removed.
 	StopEdge func(from, to *ssa.BasicBlock) bool
+	// StopPhi: a block whose branch is decided by a bool phi of its own (`x := a || b; if x`) is
+	// entered from a predecessor on which the phi has the non-constant value val; the successor on
+	// which val is `truth` is not followed when StopPhi(val, truth) is true.
+	StopPhi func(val ssa.Value, truth bool) bool
 }
 
 // FromInstr returns the set of instructions reachable strictly after start.
@@ -293,15 +297,26 @@ func (r Reach) walk(b *ssa.BasicBlock, from int, seen map[ssa.Instruction]bool, 
 	type item struct {
 		b    *ssa.BasicBlock
 		from int
+		pred *ssa.BasicBlock // the block we came from (nil at the start)
 	}
-	work := []item{{b, from}}
+	// visited keys: a block whose branch is decided by a bool phi of its own is visited once per
+	// predecessor (the branch taken depends on where we came from), every other block once
+	type key struct{ b, pred *ssa.BasicBlock }
+	visK := map[key]bool{}
+	work := []item{{b, from, nil}}
 	for len(work) > 0 {
 		it := work[len(work)-1]
 		work = work[:len(work)-1]
+		phiBranch := phiDecidedBranch(it.b)
 		if it.from == 0 {
-			if vis[it.b] {
+			k := key{it.b, nil}
+			if phiBranch != nil {
+				k.pred = it.pred
+			}
+			if visK[k] {
 				continue
 			}
+			visK[k] = true
 			vis[it.b] = true
 		}
 		stopped := false
@@ -316,13 +331,62 @@ func (r Reach) walk(b *ssa.BasicBlock, from int, seen map[ssa.Instruction]bool, 
 		if stopped {
 			continue
 		}
-		for _, s := range it.b.Succs {
+		for si, s := range it.b.Succs {
 			if r.StopEdge != nil && r.StopEdge(it.b, s) {
 				continue
 			}
-			work = append(work, item{s, 0})
+			// `x := a || b; if x {…}`: the value of the phi on the edge we came in by decides the branch
+			if phiBranch != nil && it.pred != nil && it.from == 0 {
+				if v, ok := phiConstFrom(phiBranch, it.b, it.pred); ok {
+					if (v && si != 0) || (!v && si != 1) {
+						continue
+					}
+				} else if r.StopPhi != nil {
+					ifi := lastInstr(it.b).(*ssa.If)
+					_, pol := StripNot(ifi.Cond, true)
+					for pi, p := range it.b.Preds {
+						if p == it.pred && pi < len(phiBranch.Edges) {
+							if r.StopPhi(phiBranch.Edges[pi], (si == 0) == pol) {
+								goto nextSucc
+							}
+						}
+					}
+				}
+			}
+			work = append(work, item{s, 0, it.b})
+		nextSucc:
 		}
 	}
+}
+
+// phiDecidedBranch returns the bool phi that decides the If terminating b when that phi is defined
+// in b itself (the SSA form of `x := a || b; if x`), else nil.
+func phiDecidedBranch(b *ssa.BasicBlock) *ssa.Phi {
+	ifi, ok := lastInstr(b).(*ssa.If)
+	if !ok {
+		return nil
+	}
+	c, _ := StripNot(ifi.Cond, true)
+	ph, ok := c.(*ssa.Phi)
+	if !ok || ph.Block() != b {
+		return nil
+	}
+	return ph
+}
+
+// phiConstFrom: the constant truth value of the branch condition of b (decided by phi ph, possibly
+// negated) when b is entered from pred.
+func phiConstFrom(ph *ssa.Phi, b, pred *ssa.BasicBlock) (bool, bool) {
+	ifi := lastInstr(b).(*ssa.If)
+	_, pol := StripNot(ifi.Cond, true)
+	for i, p := range b.Preds {
+		if p == pred && i < len(ph.Edges) {
+			if v, ok := ConstBool(ph.Edges[i]); ok {
+				return v == pol, true
+			}
+		}
+	}
+	return false, false
 }
 
 // Returns lists the return instructions of fn.
@@ -381,6 +445,10 @@ type SliceOpts struct {
 	FieldsThrough bool
 	// MaxNodes bounds the walk.
 	MaxNodes int
+	// Helpers: functions treated as one unit with the function under analysis (see Helpers): the
+	// result of a call of one of them continues into its returned values, a parameter of one of them
+	// continues into the arguments at its call sites inside the set.
+	Helpers map[*ssa.Function]bool
 }
 
 // Origins computes the origin set of v by walking backwards through phis, conversions,
@@ -416,6 +484,14 @@ func Origins(v ssa.Value, opt SliceOpts) []Origin {
 						}
 						return
 					}
+				}
+				if g := c.Call.StaticCallee(); g != nil && opt.Helpers[g] && len(g.Blocks) > 0 {
+					for _, ret := range Returns(g) {
+						if x.Index < len(ret.Results) {
+							walk(ReturnOperand(ret, x.Index), -1)
+						}
+					}
+					return
 				}
 				out = append(out, Origin{Kind: OCall, Val: v, Call: c, Res: x.Index})
 				return
@@ -518,8 +594,41 @@ func Origins(v ssa.Value, opt SliceOpts) []Origin {
 					return
 				}
 			}
+			if g := x.Call.StaticCallee(); g != nil && opt.Helpers[g] && len(g.Blocks) > 0 && g.Signature.Results().Len() == 1 {
+				for _, ret := range Returns(g) {
+					if len(ret.Results) == 1 {
+						walk(ReturnOperand(ret, 0), -1)
+					}
+				}
+				return
+			}
 			out = append(out, Origin{Kind: OCall, Val: v, Call: x, Res: res})
 		case *ssa.Parameter:
+			if h := x.Parent(); h != nil && opt.Helpers[h] {
+				idx := -1
+				for i, q := range h.Params {
+					if q == x {
+						idx = i
+					}
+				}
+				n := 0
+				for f := range opt.Helpers {
+					if f == h {
+						continue
+					}
+					for _, b := range f.Blocks {
+						for _, in := range b.Instrs {
+							if c, ok := in.(*ssa.Call); ok && c.Call.StaticCallee() == h && idx >= 0 {
+								walk(callArg(c, idx), -1)
+								n++
+							}
+						}
+					}
+				}
+				if n > 0 {
+					return
+				}
+			}
 			out = append(out, Origin{Kind: OParam, Val: v, Param: x})
 		case *ssa.FreeVar:
 			if cell := freeVarBinding(x); cell != nil {
